@@ -6,7 +6,8 @@ Both-ways validation of one check on scratch copies of /repo's working tree
   * every kept seeded defect (seeded/*/patch.diff) this check is recorded to detect,
     every hand mutant mutants/<Cnn>-*.diff and every fix commit listed for <Cnn> in
     mutants/reverts.txt (reverted) must make the check exit 1;
-  * every equivalent rewrite mutants/EQUIV-<Cnn>-*.diff must leave it silent (exit 0).
+  * every equivalent rewrite mutants/EQUIV-<Cnn>-*.diff and every behaviour-preserving
+    refactoring mutants/equiv/*.diff (all checks) must leave it silent (exit 0).
 A variant that no longer applies or compiles is skipped and counted.
 Prints a JSON summary; exit 0 when everything behaved as expected, 2 otherwise."""
 import sys, os, json, glob, subprocess, tempfile, shutil, concurrent.futures
@@ -29,6 +30,9 @@ def cases(prop):
         out.append(("mutant:" + os.path.basename(f)[:-5], "patch", f, 1))
     for f in sorted(glob.glob(os.path.join(here, "mutants", "EQUIV-" + prop + "-*.diff"))):
         out.append(("equivalent:" + os.path.basename(f)[:-5], "patch", f, 0))
+    # behaviour-preserving refactorings written by independent agents: every check must stay silent on each
+    for f in sorted(glob.glob(os.path.join(here, "mutants", "equiv", "*.diff"))):
+        out.append(("refactoring:" + os.path.basename(f)[:-5], "patch", f, 0))
     rv = os.path.join(here, "mutants", "reverts.txt")
     if os.path.exists(rv):
         for line in open(rv):
